@@ -54,6 +54,18 @@ def closed_form_precision_rule(ctx, run, rule, fnames, what):
         if not res:
             raise _AE(f"{fname}: no analysable path with float parameters")
         bad = lossy(res, None)
+        # ... and the arithmetic itself runs in the dtype of the tensor inputs: no operand is converted to a literal / the default dtype on
+        # the way (ncdf(x.float()), as_tensor(x, dtype=torch.get_default_dtype())), no part is computed in another dtype and converted back
+        from .dtypes import DATA, Provenance
+        for r in res:
+            pv = Provenance()
+            got = pv.of(r["value"])
+            if any("tensor" in getattr(v_, "tags", ()) for v_ in kw.values()) and got not in (DATA, None):
+                why = "; ".join(sorted({w_ for _, w_ in pv.leaves})) or "no tensor input determines the dtype"
+                bad.append(f"the result is computed in a {got} dtype, not in the dtype of the inputs ({why})"[:200])
+            for t_, v_ in pv.narrowed:
+                bad.append(f"{str(t_.args[0])[:80]} is computed in a {v_} dtype and converted afterwards")
+        bad = sorted(set(bad))
         run.oblige(rule, f"{fname}: {what}", not bad, "; ".join(bad) or "no Python float is rounded to the default dtype")
         if bad:
             run.fail(_Finding(rule, fi.qualname, "; ".join(bad)[:300], "a Python float is rounded to float32 before it enters float64 arithmetic: the result loses half its digits",
